@@ -1,2 +1,57 @@
 (* C12 - property theorems. Only statements closed by `exact`, with Print Assumptions. *)
-From QV Require Import Base.Bytes Struct.NumRange Struct.RangeSpec Struct.PageOps.
+From QV Require Import Base.Bytes Struct.NumRange Struct.RangeSpec Struct.PageOps Struct.C12Proofs.
+From Coq Require Permutation.
+
+(* The model of QUtil::parse_numrange accepts exactly the strings of the manual's range
+   grammar and returns exactly the page list the declarative denotation gives; every other
+   string, and every out-of-range number, is rejected. For all strings, all max. *)
+Theorem numrange_spec : forall s max, nr_ok (parse_numrange s max) = range_spec s max.
+Proof. exact numrange_spec_lemma. Qed.
+Print Assumptions numrange_spec.
+
+(* The collation loop of handlePageSpecs is the round-robin of the manual. *)
+Theorem collate_refines : forall (A : Type) (sels : list (list A)) (cs : list nat),
+  length cs = length sels -> Forall (fun c => 0 < c)%nat cs ->
+  collate sels cs = collate_spec sels cs.
+Proof. exact collate_refines_lemma. Qed.
+Print Assumptions collate_refines.
+
+(* Collation neither loses nor duplicates a selected page. *)
+Theorem collate_perm : forall (A : Type) (sels : list (list A)) (cs : list nat),
+  length cs = length sels -> Forall (fun c => 0 < c)%nat cs ->
+  Permutation.Permutation (collate sels cs) (concat sels).
+Proof. exact collate_perm_lemma. Qed.
+Print Assumptions collate_perm.
+
+(* The split outputs concatenated in order reproduce the page sequence; every file has
+   between 1 and n pages. *)
+Theorem split_concat : forall (A : Type) (n : nat) (ps : list A), (0 < n)%nat ->
+  concat (split_pages n ps) = ps
+  /\ Forall (fun c => 0 < length c <= n)%nat (split_pages n ps).
+Proof. exact split_concat_lemma. Qed.
+Print Assumptions split_concat.
+
+(* Rotation: the written /Rotate is congruent to the requested one modulo 360 (C++ % written
+   out), and lies in [0,360) whenever the sum is at least -360. *)
+Theorem rotate_mod360 : forall old a rel r, (a mod 90 = 0)%Z ->
+  rotate_angle old a rel = Some r ->
+  let eff := if (old mod 90 =? 0)%Z then old else 0%Z in
+  (r mod 360 = (if rel then eff + a else a) mod 360)%Z
+  /\ ((-360 <= (if rel then eff + a else a))%Z -> (0 <= r < 360)%Z).
+Proof. exact rotate_mod360_lemma. Qed.
+Print Assumptions rotate_mod360.
+
+Theorem rotate_rejects : forall old a rel, (a mod 90 <> 0)%Z -> rotate_angle old a rel = None.
+Proof. exact rotate_rejects_lemma. Qed.
+Print Assumptions rotate_rejects.
+
+(* non-vacuity: concrete non-trivial instances of the hypotheses *)
+Example numrange_example :
+  nr_ok (parse_numrange [49;45;51;44;120;50;44;122;44;114;50;45;53;58;101;118;101;110]%N 10)
+  = Some [3;9;7;5]%Z.
+Proof. vm_compute. reflexivity. Qed.
+Example collate_example : collate [[1;2;3;4;5];[10;20];[100;200;300]]%Z [2;1;1]%nat
+  = [1;2;10;100;3;4;20;200;5;300]%Z.
+Proof. vm_compute. reflexivity. Qed.
+Example rotate_negative_example : rotate_angle (-720) (-270) true = Some (-270)%Z.
+Proof. vm_compute. reflexivity. Qed.
